@@ -28,6 +28,8 @@ RULE = (
     " and index components at the BER / 32-bit boundaries."
     " One case in six answers request 1..3 of a fetch with tooBig/genErr/inconsistentValue: t"
     "he fetch raises, never a table with cells missing."
+    " A table containing cells whose OIDs collide in the low 32 bits of their string hash und"
+    "er the shard's own hash seed (searched at run time)."
 )
 ASSUMPTIONS = [
     "table() is addressed by the entry OID and bulktable() by the table OID, as their documentation and tests prescribe",
